@@ -1,0 +1,17 @@
+//go:build verif
+
+package table
+
+import "sync/atomic"
+
+// verifFoldKeyFn, when installed by a test harness built with the "verif"
+// tag, maps the 64-bit destination key to a smaller space so that the
+// collision chains of Destinations are exercised.
+var verifFoldKeyFn atomic.Pointer[func(uint64) uint64]
+
+func verifFoldKey(k addrPrefixKey) addrPrefixKey {
+	if f := verifFoldKeyFn.Load(); f != nil {
+		return addrPrefixKey((*f)(uint64(k)))
+	}
+	return k
+}
